@@ -134,6 +134,9 @@ type ShardSpec struct {
 	Idle  string `json:"idle"` // expired | fresh  (meaningful when Held is empty)
 	// DelayMS: the shard answers every request correctly, but only after this many milliseconds
 	DelayMS int `json:"delayMs,omitempty"`
+	// TargetsPostFail: the shard answers the status requests but not a targets update (it stops answering in the
+	// middle of the cycle); the request is logged with Failed set
+	TargetsPostFail bool `json:"targetsPostFail,omitempty"`
 }
 
 // ReplicaSpec is one StatefulSet.
@@ -160,6 +163,7 @@ type Req struct {
 	Method string          `json:"m"`
 	Path   string          `json:"p"`
 	Body   json.RawMessage `json:"b,omitempty"`
+	Failed bool            `json:"failed,omitempty"` // the shard did not answer it
 }
 
 // ReplicaLog is what one replica saw during the cycle.
@@ -317,6 +321,9 @@ func (f *fakeShard) postCore(path string, b []byte) error {
 	defer f.mu.Unlock()
 	f.log = append(f.log, Req{Method: "POST", Path: path, Body: append([]byte(nil), b...)})
 	switch {
+	case strings.HasPrefix(path, "/api/v1/shard/targets") && f.spec.TargetsPostFail:
+		f.log[len(f.log)-1].Failed = true
+		return fmt.Errorf("targets update not answered (scripted)")
 	case strings.HasPrefix(path, "/api/v1/status/config"):
 		if f.spec.Push == "fail" {
 			return fmt.Errorf("config push rejected (scripted)")
